@@ -24,13 +24,17 @@
  *          and returns exactly the previous or exactly the new image.
  *          Nothing is demanded when validation does not succeed.
  *   I/O fault (i,s): the i-th medium call of the operation transfers only its
- *       first s < len octets and returns s (s = 0: plain failure); or it
- *       transfers nothing and answers (size_t)-1 = SIZE_MAX, the conventional
- *       failure answer of a transfer callback (what a driver built on
- *       pread/pwrite hands back for -1).  Other answers larger than the request
- *       (len+1, len+2^k) are neither a failure nor a short transfer in the
- *       statement's words and are not generated.
+ *       first s < len octets and returns s (s = 0: plain failure).
  *       O: the operation returns PERSISTENT_ACCESS_IO_ERROR.
+ *       One further driver answer is injected but NOT judged: the call transfers
+ *       nothing and answers (size_t)-1 = SIZE_MAX (what a driver built on
+ *       pread/pwrite hands back for -1).  Neither the header nor the
+ *       documentation defines that as a failure answer, and `if (n < toget)
+ *       error` is a natural implementation of "transfers short", so whatever the
+ *       library makes of it is an observation (optional classes minus1-*); only
+ *       when the library itself reports a failure for it is the medium it left
+ *       judged like after a failed call.  Other answers larger than the request
+ *       (len+1, len+2^k) are not generated.
  *       For store, store_part and reset a fresh instance then validates the
  *       medium the failed operation left behind (x the 3 image pairs):
  *       validate = success  =>  checksum octets = reference checksum of the data
@@ -45,7 +49,7 @@
  *
  * Vacuity is guarded with classes that describe what the *harness* did to the
  * library (env-...: a cut fired at a write boundary / inside a write, a failed /
- * short / (size_t)-1 read or write was injected), recorded next to the case's
+ * short read or write was injected), recorded next to the case's
  * outcome class; what the library made of it (cut-valid-old, torn-invalid, ...)
  * depends on its admissible internal order and is not required.
  *
@@ -812,6 +816,10 @@ fault_cases(const struct cfg *c, int op, size_t off, size_t len)
                 }
                 if (how == 2 && !M.fired) {
                     precondition_failed("operation does not return on a fault-free medium");
+                } else if (how == 2 && over) {
+                    /* not a failure answer by any document: not judged */
+                    mc_log("  OBSERVATION: no return within the call budget after the answer (size_t)-1");
+                    outcome = "minus1-answer-no-return";
                 } else if (how == 2) {
                     nontrivial = true;
                     FAIL("C11/hang",
@@ -820,9 +828,20 @@ fault_cases(const struct cfg *c, int op, size_t off, size_t len)
                          M.fired_rw == 'r' ? "read" : "write", M.fired_len, answered, s);
                 } else if (how == 0 && !M.fired) {
                     outcome = "fault-not-reached";
+                } else if (how == 0 && over && rc == PERSISTENT_ACCESS_SUCCESS) {
+                    /* the library took (size_t)-1 for a transfer count that is not
+                     * short: admissible (no document calls it a failure answer);
+                     * nothing is demanded of what such an operation leaves behind */
+                    nontrivial = true;
+                    mc_log("  OBSERVATION: %s returned success after its medium %s of %zu octets %s", od,
+                           M.fired_rw == 'r' ? "read" : "write", M.fired_len, answered);
+                    outcome = M.fired_rw == 'r' ? "minus1-read-taken-as-transfer" : "minus1-write-taken-as-transfer";
                 } else if (how == 0) {
                     nontrivial = true;
-                    if (rc == PERSISTENT_ACCESS_SUCCESS)
+                    if (over)
+                        mc_log("  OBSERVATION: %s returned %d after its medium %s of %zu octets %s", od, (int)rc,
+                               M.fired_rw == 'r' ? "read" : "write", M.fired_len, answered);
+                    else if (rc == PERSISTENT_ACCESS_SUCCESS)
                         FAIL("C11/io-fault-never-success",
                              "%s returned success although its medium %s of %zu octets %s (%zu)",
                              od, M.fired_rw == 'r' ? "read" : "write", M.fired_len, answered, s);
@@ -832,10 +851,10 @@ fault_cases(const struct cfg *c, int op, size_t off, size_t len)
                              "%s (%zu)", od, (int)rc, M.fired_rw == 'r' ? "read" : "write",
                              M.fired_len, answered, s);
                     if (M.fired_rw == 'r')
-                        outcome = over ? "io-error-minus1-read"
+                        outcome = over ? "minus1-read-taken-as-failure"
                                        : (s ? "io-error-short-read" : "io-error-failed-read");
                     else
-                        outcome = over ? "io-error-minus1-write"
+                        outcome = over ? "minus1-write-taken-as-failure"
                                        : (s ? "io-error-short-write" : "io-error-failed-write");
                     if (stores && !failed_here) {
                         const bool whole = (M.fired_rw == 'r') || s == 0;
@@ -875,7 +894,9 @@ fault_cases(const struct cfg *c, int op, size_t off, size_t len)
  *
  * O (sentences of the statement; every validation meant is one that itself ran
  * fault-free):
- *   - an operation in which a fault was injected returns the I/O-error code;
+ *   - an operation in which a fault was injected (a failed or short transfer;
+ *     the answer (size_t)-1 is injected too but not judged, see the header)
+ *     returns the I/O-error code;
  *   - a validation that comes after a cut-off or failing store / store_part /
  *     reset touched the bank in force succeeds only if the checksum octets of
  *     the region in force encode the configured algorithm over its data octets
@@ -936,6 +957,7 @@ struct sworld {
     } on[2];
     bool last_v_ok;       /* the previous operation was a fault-free validation that succeeded */
     bool stop, precond;
+    bool minus1_stop;     /* ended by what the library made of the unjudged answer (size_t)-1 */
     int last_v, last_f;   /* result of the last fault-free validate / fetch (-1: none) */
 };
 
@@ -1072,7 +1094,13 @@ seq_op(struct sworld *w, int sop, int plan, long at, size_t s, int over)
     const bool mutator = (sop == S_S || sop == S_P || sop == S_R);
     if (sop == S_F && how == 0)
         mc_log_hex("  fetched", buf, N);
-    if (M.outside) {
+    if (fired && over && (M.outside || how == 2)) {
+        /* (size_t)-1 is no failure answer by any document: whatever the library
+         * made of it is not judged (and is not C10's subject either) */
+        mc_log("  OBSERVATION: after the answer (size_t)-1 the operation %s",
+               how == 2 ? "did not return within the call budget" : "reached outside the region in force");
+        w->stop = w->minus1_stop = true;
+    } else if (M.outside) {
         precondition_failed("access outside the region in force");
         w->stop = w->precond = true;
     } else if (how == 2 && !fired) {
@@ -1084,7 +1112,11 @@ seq_op(struct sworld *w, int sop, int plan, long at, size_t s, int over)
              M.fired_len, over ? "answered (size_t)-1 with nothing transferred" : "transferred short", s);
         w->stop = true;
     } else if (fired) {
-        if (rc == PERSISTENT_ACCESS_SUCCESS)
+        if (over)
+            mc_log("  OBSERVATION: %s returned %d after its medium %s of %zu octets answered (size_t)-1 with nothing "
+                   "transferred (not judged)", OPNAME[libop], (int)rc, M.fired_rw == 'r' ? "read" : "write",
+                   M.fired_len);
+        else if (rc == PERSISTENT_ACCESS_SUCCESS)
             FAIL("C11/io-fault-never-success", "%s returned success although its medium %s of %zu octets %s (%zu)",
                  OPNAME[libop], M.fired_rw == 'r' ? "read" : "write", M.fired_len,
                  over ? "answered (size_t)-1 with nothing transferred" : "transferred short", s);
@@ -1096,7 +1128,10 @@ seq_op(struct sworld *w, int sop, int plan, long at, size_t s, int over)
         if (mutator) {
             w->dev[w->bank] = true;
             w->on[w->bank].on = false;
-            if (sop != S_R && lay >= 0 && (M.fired_rw == 'r' || s == 0 || over)) {
+            /* (size_t)-1: only when the library itself took it for a failure is the
+             * operation "a failing store all of whose writes were whole" */
+            if (sop != S_R && lay >= 0
+                && (over ? rc != PERSISTENT_ACCESS_SUCCESS : (M.fired_rw == 'r' || s == 0))) {
                 w->on[w->bank].on = true;
                 w->on[w->bank].ck = w->ck;
                 memcpy(w->on[w->bank].prev, prev, N);
@@ -1295,6 +1330,8 @@ seq_case(const struct scfg *c, const unsigned char *pre, int npre, const struct 
                                                                    : "seq-ends-other";
             if (x->kind == XK_NONE)
                 outcome = "seq-plain";
+            if (w.minus1_stop)
+                outcome = "seq-minus1-not-judged";
         }
     }
     for (int b = 0; b < 2; ++b) {
@@ -1481,15 +1518,16 @@ main(int argc, char **argv)
     snprintf(bound, sizeof bound,
              "data sizes 1..%zu x placements %s x {default sum16, CRC-16/ARC, sum32} x auxiliary buffer %s: "
              "every store / store_part(offset,len>=0) x 3 image pairs x every write call x every t in 0..len; "
-             "every operation (parts incl. length 0) x every medium call x every short count 0..len-1 and the "
-             "failure answer (size_t)-1 (one fault per execution), stores x 3 image pairs with a "
+             "every operation (parts incl. length 0) x every medium call x every short count 0..len-1 (and the "
+             "driver answer (size_t)-1, observed, not judged) (one fault per execution), stores x 3 image pairs with a "
              "validate/fetch of the medium the failed operation left, by the same instance and by a fresh one; "
              "S: data sizes 1..%zu x bank placements %s x 3 checksums x auxiliary buffer %s x every sequence "
              "pre;X;post on one instance over a two-bank medium: pre = every sequence of <= 2%s fault-free operations "
              "over {validate, fetch, store, store_part, reset, place(other bank), sum16, sum32, init}, X in {nothing, "
              "sum16, sum32, init, place(bank B) x bank B holding {complete store, store cut off in write 0..1 after "
              "0..max(N,4) octets} x {same, next checksum}, {store, store_part, reset, validate, fetch} x every medium "
-             "call 0..N+5 x every short count 0..max(N,4)-1 and (size_t)-1}, post in {validate;fetch, fetch;validate}",
+             "call 0..N+5 x every short count 0..max(N,4)-1 (and the unjudged answer (size_t)-1)}, post in "
+             "{validate;fetch, fetch;validate}",
              nmax, mc_thorough() ? "{0,1,7,100,straddling 2^16,straddling 2^31,ending at 2^32}"
                                  : "{0,100,ending at 2^32}",
              mc_thorough() ? "{none,1,2,3,N-1,N,N+1}" : "{none,1,3,N}",
